@@ -7,6 +7,7 @@ metrics.py and are tied to the code on every run by tools/harness/c08.py.
 -/
 import SkNet.Lemmas.Labels
 import SkNet.Lemmas.Sort
+import SkNet.Lemmas.CutExact
 
 namespace SkNet.C08
 open SkNet SkNet.Dendro SkNet.Cut
@@ -267,6 +268,108 @@ example : (cutStraight (α := Nat) [⟨0, 1, 1, 2⟩, ⟨2, 3, 2, 2⟩, ⟨4, 5,
 
 example : (cutStraight (α := Nat) [⟨0, 1, 1, 2⟩, ⟨2, 3, 1, 2⟩, ⟨4, 5, 1, 4⟩] (some 2) none true false argsortDesc).toOption.map (·.labels)
     = some [0, 1, 2, 3] := by decide
+
+/-- **cut_straight, exact clauses.**  Let `D` be the dendrogram that is cut.  If `D` is a valid dendrogram whose
+    heights never decrease towards the root, then
+    * every merge strictly below the cut height is applied: all the leaves below it receive one label — in
+      particular every merge strictly below `threshold`, since the cut height is at least the threshold;
+    * without a threshold and with pairwise distinct heights there are **exactly** `n_clusters` clusters. -/
+theorem cutStraight_exact {D0 : Dendro α} {nc : Option Nat} {thr : Option α} {srt retD : Bool}
+    {argsort : List Nat → List Nat} (hs : SortsDesc argsort) {out : CutOut α}
+    (h : cutStraight D0 nc thr srt retD argsort = .ok out) :
+    ∃ D, (D = D0 ∨ reorderDendrogram D0 = .ok D) ∧
+      (ValidDendro (D0.length + 1) D = true → MonoPaths (D0.length + 1) D = true →
+        ∃ cl, SubtreeLabelling (D0.length + 1) D out.labels srt cl ∧
+          (∀ t r c, D[t]? = some r → thr = some c → r.h < c →
+            ∀ v ∈ leaves (D0.length + 1) D (D0.length + 1 + t),
+            ∀ w ∈ leaves (D0.length + 1) D (D0.length + 1 + t), out.labels.getD v 0 = out.labels.getD w 0) ∧
+          (thr = none → DistinctHeights D = true → cl.length = nc.getD 2)) := by
+  obtain ⟨D, k, cut, st, hD, hk, hcut, hloop, hlab⟩ := cutStraight_unfold h
+  have hlen : D.length = D0.length := by
+    rcases hD with e | e
+    · rw [e]
+    · exact reorderDendrogram_length e
+  refine ⟨D, hD, ?_⟩
+  intro hv hm
+  rw [← hlen] at hloop hcut hk hv hm ⊢
+  obtain ⟨hinv, hne⟩ := mergeLoop_final hloop
+  obtain ⟨hsub, hperm⟩ := getLabels_subtrees hs hinv hne hlab
+  obtain ⟨hcount, happlied⟩ := mergeLoop_exact hv hm hloop
+  have hcl : (orderedClusters st srt argsort).length = st.length := by
+    rw [hperm.length_eq]; simp [Dict.values]
+  refine ⟨_, hsub, ?_, ?_⟩
+  · -- merges below the threshold
+    intro t r c ht hthr hlt v hv' w hw'
+    subst hthr
+    -- the cut height is at least the threshold
+    have hbelow : belowCut cut r = true := by
+      unfold cutHeight at hcut
+      split at hcut
+      · split at hcut
+        · cases hcut
+        · rename_i c0 _
+          simp only [Except.ok.injEq] at hcut
+          subst hcut
+          simp only [belowCut, decide_eq_true_eq]
+          split
+          · exact hlt
+          · rename_i hge; exact lt_of_lt_of_le hlt (not_lt.mp hge)
+      · simp only [Except.ok.injEq] at hcut; subst hcut; rfl
+    obtain ⟨p, hp, hsup⟩ := happlied t r ht hbelow
+    have hpc : p.2 ∈ orderedClusters st srt argsort :=
+      hperm.mem_iff.mpr (List.mem_map.mpr ⟨p, hp, rfl⟩)
+    obtain ⟨q, hq, hqe⟩ := List.getElem_of_mem hpc
+    have hq' : (orderedClusters st srt argsort)[q]? = some p.2 := by
+      rw [List.getElem?_eq_getElem hq, hqe]
+    rw [hsub.label q p.2 hq' v (hsup v hv'), hsub.label q p.2 hq' w (hsup w hw')]
+  · -- exact count
+    intro hthr hdist
+    subst hthr
+    rw [hcl]
+    obtain ⟨hk1, hk2⟩ := effectiveK_spec hk
+    rw [← hk1 rfl]
+    by_cases hone : k > 1
+    · simp only [cutHeight, hone, if_true] at hcut
+      split at hcut
+      · cases hcut
+      · rename_i c hc
+        simp only [Except.ok.injEq] at hcut
+        subst hcut
+        have hcnt := countP_lt_sortH_nodup (D.map (·.h)) (nodup_of_distinctHeights hdist) _ c hc
+        rw [List.countP_map] at hcnt
+        have hlt := (List.getElem?_eq_some_iff.mp hc).1
+        have hsl : (sortH (D.map (·.h))).length = D.length := by
+          rw [(sortH_perm _).length_eq]; simp
+        have hcnt' : D.countP (belowCut (some c)) = D.length + 1 - k := by
+          have : (belowCut (some c) : Row α → Bool) = ((fun x => decide (x < c)) ∘ fun r => r.h) := by
+            funext r; rfl
+          rw [this]; exact hcnt
+        have hkn : k ≤ D.length + 1 := by
+          cases nc with
+          | none => have := hk1 rfl; simp only [Option.getD_none] at this; omega
+          | some k' => exact (hk2 (by simp)).2
+        omega
+    · -- a single cluster: every row is applied
+      have hk1' : k = 1 := by
+        cases nc with
+        | none => have := hk1 rfl; simp at this; omega
+        | some k' => have := (hk2 (by simp)).1; omega
+      simp only [cutHeight, hone, if_false, Except.ok.injEq] at hcut
+      subst hcut
+      have : D.countP (belowCut (none : Option α)) = D.length := by
+        rw [List.countP_eq_length]; intro a _; rfl
+      omega
+
+/-- non-vacuity of the hypotheses: a valid dendrogram with distinct heights that never decrease towards the
+    root, cut in three -/
+example : ValidDendro 4 ([⟨0, 1, 1, 2⟩, ⟨2, 3, 2, 2⟩, ⟨4, 5, 3, 4⟩] : Dendro Nat) = true ∧
+    MonoPaths 4 ([⟨0, 1, 1, 2⟩, ⟨2, 3, 2, 2⟩, ⟨4, 5, 3, 4⟩] : Dendro Nat) = true ∧
+    DistinctHeights ([⟨0, 1, 1, 2⟩, ⟨2, 3, 2, 2⟩, ⟨4, 5, 3, 4⟩] : Dendro Nat) = true := by decide
+
+/-- without monotone heights the exact count fails: the model (and the code) returns 3 clusters for
+    `n_clusters = 2` on a valid dendrogram whose root is lower than its child -/
+example : (cutStraight (α := Nat) [⟨0, 1, 5, 2⟩, ⟨2, 3, 1, 3⟩] (some 2) none true false argsortDesc).toOption.map (·.labels)
+    = some [0, 1, 2] := by decide
 
 end straight
 
